@@ -377,8 +377,11 @@ async def _wait_for_depletion(
         streams: dict[ObjectRef, Stream],
 ) -> None:
 
-    # Notify all the workers to finish now. Wake them up if they are waiting in the queue-getting.
+    # Notify all the workers to finish now. Wake them up if they are waiting in the queue-getting,
+    # or sleeping in the processors (e.g. the peering processor would otherwise wake up on its own
+    # within the exit timeout and re-add the operator's record after it has been withdrawn).
     for stream in streams.values():
+        stream.pressure.set()
         await stream.backlog.put(EOS.token)
 
     # Wait for the queues to be depleted, but only if there are some workers running.
